@@ -186,9 +186,6 @@ static int request(unsigned len, std::shared_ptr<PropertyStorageBase> &prop, std
   return out;
 }
 LEN_HARNESS(request_sufficient, MINB, DEF_MAX) {
-#ifdef BOOLVALID
-  v_assume(g_raw[0] <= 1);
-#endif
   std::shared_ptr<PropertyStorageBase> prop; std::string name("p");
   int out = request(len, prop, name);
   V_ASSERT(out != OTHER);
